@@ -1,3 +1,4 @@
 
 import FontcProps.C07
 import FontcProps.C05
+import FontcProps.C14
